@@ -367,13 +367,16 @@ Definition fneedle_ok (k : fneedle) : Prop :=
   | _ => True
   end.
 
+(** the other object is read only by the overloads with a FixedString needle *)
 Lemma find_op_okr s o fam k pos :
-  Inv L s -> Inv L o -> pos < M64 -> fneedle_ok k -> okr (find_op L s o fam k pos).
+  Inv L s -> (k = FFs -> Inv L o) -> pos < M64 -> fneedle_ok k -> okr (find_op L s o fam k pos).
 Proof.
-  intros Hs Ho Hp Hk. pose proof Ho as (Hbo & Hlo & Hzo). destruct HL as [HL1 HL2].
-  pose proof (inv_cstrlen o Ho) as Hco.
+  intros Hs Ho Hp Hk. destruct HL as [HL1 HL2].
   assert (Hcs : forall cs, cstrlen cs <= nlen cs) by apply cstrlen_le.
+  assert (Hfs : k = FFs -> nlen (buf o) = L + 1 /\ len o <= L /\ cstrlen (buf o) < nlen (buf o)).
+  { intros E. specialize (Ho E). pose proof (inv_cstrlen o Ho). destruct Ho as (H1 & H2 & H3). auto. }
   destruct fam, k; cbn [find_op fneedle_ok] in *;
+    try (destruct (Hfs eq_refl) as (Hbo & Hlo & Hco)); clear Hfs;
     try (specialize (Hcs cs));
     try (apply find_arr_okr; rewrite ?nlen_carr; try assumption; unfold M64 in *; lia);
     try (apply find_ch_okr; assumption);
@@ -411,14 +414,14 @@ Proof.
   intros (Hb & Hl & Hz). unfold str. destruct (0 <? len s); [|apply okr_ok]. apply rdn_okr. lia.
 Qed.
 
-Lemma eq_op_okr s o : Inv L s -> Inv L o -> okr (eq_op s o).
+Lemma eq_op_okr Lo s o : Inv L s -> Inv Lo o -> okr (eq_op s o).
 Proof.
   intros (Hb & Hl & Hz) (Hbo & Hlo & Hzo). unfold eq_op.
   destruct (N.eqb_spec (len s) (len o)); [|apply okr_ok].
   apply okr_bind; [apply mcmp_okr; lia|intros; apply okr_ok].
 Qed.
 
-Lemma ne_op_okr s o : Inv L s -> Inv L o -> okr (ne_op s o).
+Lemma ne_op_okr Lo s o : Inv L s -> Inv Lo o -> okr (ne_op s o).
 Proof.
   intros (Hb & Hl & Hz) (Hbo & Hlo & Hzo). unfold ne_op.
   destruct (N.eqb_spec (len s) (len o)); cbn [negb]; [|apply okr_ok].
